@@ -542,4 +542,79 @@ theorem spec_isHarmonicB_iff (n : Nat) (w : Nat → Nat → Rat) (s : Seeds) (h 
       simp only [beq_iff_eq]
       exact this
 
+/-! ## totality: when `fit` returns -/
+
+/-- **fit_returns**. On a square, non-empty matrix with the temperatures given as a vector of the right length,
+`n_iter ≥ 1`, and either an `init` or at least one seed, both estimators return (no error value): the hypotheses of
+the theorems above are met by every such call, for every graph. Conversely `n_iter ≤ 0`, an empty matrix and a
+vector of the wrong length are refused with `ValueError`, and no seed with no `init` has no result (NaN). -/
+theorem fit_returns (algo : Algo) (n nnz : Nat) (B : Nat → Nat → Rat) (l : List Rat) (init : Option Rat)
+    (nIter : Int) (α : Rat) :
+    (0 < nIter → nnz ≠ 0 → l.length = n → (init.isSome ∨ ∃ i, i < n ∧ 0 ≤ l.getD i 0) →
+      ∃ out, fit algo n n nnz B { values := .arr l, init := init } nIter α = .ok out) ∧
+    (nIter ≤ 0 → fit algo n n nnz B { values := .arr l, init := init } nIter α = .error .valueError) ∧
+    (0 < nIter → nnz = 0 → fit algo n n nnz B { values := .arr l, init := init } nIter α = .error .valueError) ∧
+    (0 < nIter → nnz ≠ 0 → l.length ≠ n →
+      fit algo n n nnz B { values := .arr l, init := init } nIter α = .error .valueError) ∧
+    (0 < nIter → nnz ≠ 0 → l.length = n → init = none → (∀ i, i < n → l.getD i 0 < 0) →
+      fit algo n n nnz B { values := .arr l, init := init } nIter α = .error .nanMean) := by
+  have hprep : nnz ≠ 0 → l.length = n →
+      getAdjacencyValues n n nnz B { values := .arr l, init := init } = .ok ⟨n, B, l, false⟩ := by
+    intro h1 h2
+    simp [getAdjacencyValues, h1, Values.isNone, getValues, h2]
+  refine ⟨fun hk hnnz hl hseed => ?_, fun hk => by simp [fit, hk], fun hk h0 => ?_, fun hk hnnz hl => ?_,
+    fun hk hnnz hl hi hneg => ?_⟩
+  · have hinit : ∃ tb, initTemperatures l init = .ok tb := by
+      unfold initTemperatures
+      cases init with
+      | some x => exact ⟨_, rfl⟩
+      | none =>
+        have hc : seedCount l ≠ 0 := by
+          rcases hseed with h | ⟨i, hi, hs⟩
+          · cases h
+          · have hterm := sumTo_ge_term (n := l.length) (f := fun i => if 0 ≤ l.getD i 0 then (1 : Rat) else 0)
+              (fun k _ => by split <;> norm_num) (hl ▸ hi)
+            simp only [hs, if_true] at hterm
+            unfold seedCount
+            linarith
+        simp only [hc, if_false]
+        exact ⟨_, rfl⟩
+    obtain ⟨⟨temps, border⟩, ht⟩ := hinit
+    have hnk : ¬ nIter ≤ 0 := by omega
+    cases algo <;> simp [fit, hnk, hprep hnnz hl, fitVector, ht]
+  · have hnk : ¬ nIter ≤ 0 := by omega
+    simp [fit, hnk, getAdjacencyValues, h0]
+  · have hnk : ¬ nIter ≤ 0 := by omega
+    simp [fit, hnk, getAdjacencyValues, hnnz, Values.isNone, getValues, hl]
+  · have hnk : ¬ nIter ≤ 0 := by omega
+    have hc : seedCount l = 0 := by
+      unfold seedCount
+      apply sumTo_eq_zero_of_all_zero
+      intro i hi
+      have := hneg i (hl ▸ hi)
+      simp [not_le.2 this]
+    subst hi
+    simp [fit, hnk, hprep hnnz hl, fitVector, initTemperatures, hc]
+
+/-- **dirichlet_fit_converges (adjacency or biadjacency input)**: for every routing of `get_adjacency_values`, the
+vector that `_split_vars` cuts into `values_` / `values_row_` / `values_col_` converges to the harmonic function of
+the graph the estimator runs on (the block graph `[[0,B],[Bᵀ,0]]` for a biadjacency matrix). -/
+theorem dirichlet_fit_converges_general (nRow nCol nnz : Nat) (B : Nat → Nat → Rat) (a : Args) (α : Rat)
+    (p : Prepared) (h : Nat → Rat) (hprep : getAdjacencyValues nRow nCol nnz B a = .ok p) (hn : 0 < p.n)
+    (hB : ∀ i j, 0 ≤ B i j)
+    (hreach : ∀ i, i < p.n → ∃ t, ReachesSeed p.n p.adj (fun i => decide (0 ≤ p.seeds.getD i 0)) t i)
+    (hH : IsHarmonic p.n p.adj (fun i => decide (0 ≤ p.seeds.getD i 0)) (fun i => p.seeds.getD i 0) h)
+    (ε : Rat) (hε : 0 < ε) :
+    ∃ K : Nat, ∀ nIter : Int, (K : Int) ≤ nIter → ∀ out, fit .dirichlet nRow nCol nnz B a nIter α = .ok out →
+      ∃ v, out = splitVars p.bipartite nRow v ∧ v.length = p.n ∧
+        ∀ i, i < p.n → absQ (v.getD i 0 - h i) ≤ ε := by
+  have hlen := (getAdjacencyValues_ok hprep).2.1
+  have hA := getAdjacencyValues_nonneg hprep hB
+  obtain ⟨K, hK⟩ := dirichlet_converges p a.init α h hlen hn (fun i j _ _ => hA i j) hreach hH ε hε
+  refine ⟨K, fun nIter hk out hfit => ?_⟩
+  obtain ⟨_, p', v, hp', hv, rfl⟩ := fit_ok hfit
+  rw [hprep] at hp'; cases hp'
+  exact ⟨v, rfl, (dirichlet_boundary_vector p a.init nIter.toNat α v hlen hv).1,
+    hK nIter.toNat (by omega) v hv⟩
+
 end SkNet.C14
